@@ -479,8 +479,9 @@ impl ClusterActor {
             "reading partition locally"
         );
 
-        // If start_sequence is beyond watermark, no events to return
-        if start_sequence > watermark {
+        // If start_sequence is at or beyond the watermark, no events to return (the watermark is the
+        // number of confirmed events, so sequence `watermark` itself is the first unconfirmed one)
+        if start_sequence >= watermark {
             reply_sender.send(Ok(PartitionEvents {
                 events: Vec::new(),
                 has_more: false,
@@ -525,8 +526,11 @@ impl ClusterActor {
                             break 'iter;
                         }
 
-                        // Check if event is beyond effective end sequence
-                        if event.partition_sequence > effective_end_sequence {
+                        // Check if event is beyond effective end sequence, or not below the watermark
+                        // (a multi-event transaction can straddle it)
+                        if event.partition_sequence > effective_end_sequence
+                            || event.partition_sequence >= watermark
+                        {
                             break 'iter;
                         }
 
@@ -669,7 +673,7 @@ impl ClusterActor {
 
                         // Check if event is beyond watermark (safety check - uses
                         // partition_sequence)
-                        if event.partition_sequence > watermark {
+                        if event.partition_sequence >= watermark {
                             break 'iter;
                         }
 
